@@ -94,9 +94,9 @@ def ob_matching(error_type, given_weights, timeout=30):
     if error_type in (None, 'Z'):
         want_built.append(('Hx', wz)); want_calls.append(('matcher(Hx,%s)' % wz, 'syn[x rows](syndrome)'))
     problems = []
-    if [(a, b) for a, b, _ in rec.built] != want_built:
+    if sorted((a, b) for a, b, _ in rec.built) != sorted(want_built):
         problems.append('matchers built as %s, sector typing requires %s (Hz detects X flips: X-flip weights; Hx detects Z flips: Z-flip weights)' % ([(a, b) for a, b, _ in rec.built], want_built))
-    if rec.calls != want_calls:
+    if sorted(rec.calls) != sorted(want_calls):
         problems.append('decode calls %s, sector typing requires %s' % (rec.calls, want_calls))
     if not isinstance(ret, Arr) or ret.rank != 1:
         problems.append('decode does not return a 1-D array')
@@ -104,12 +104,12 @@ def ob_matching(error_type, given_weights, timeout=30):
         return dict(verdict='refuted', model=dict(problems=problems), backend='pyvc-symex', seconds=0, detail='; '.join(problems), kind='state',
                     functions=[dict(function=f.ref, sha256_16=f.sha) for f in s['funcs']], transparent=sorted(s['x'].transparent))
     i = z3.Int('i')
-    k = 0
     want_x = z3.IntVal(0); want_z = z3.IntVal(0)
-    if error_type in (None, 'X'):
-        want_x = s['outs'][k](i); k += 1
-    if error_type in (None, 'Z'):
-        want_z = s['outs'][k](i)
+    for k, (mt, _) in enumerate(rec.calls):           # outputs identified by the matcher they came from, not by call order
+        if mt.startswith('matcher(Hz'):
+            want_x = s['outs'][k](i)
+        elif mt.startswith('matcher(Hx'):
+            want_z = s['outs'][k](i)
     goal = [N >= 1, i >= 0, i < N, z3.Or(Z(ret.f(i)) != want_x, Z(ret.f(N + i)) != want_z, Z(ret.shape[0]) != 2 * N,
                                           z3.Or([c for c, _, _ in s['st2'].raises] + [z3.BoolVal(False)]))]
     r = check(goal, timeout)
@@ -142,8 +142,8 @@ def ob_unionfind(timeout=30):
     if sorted(built) != sorted([('syn[x rows]', 'Hx'), ('syn[z rows]', 'Hz')]):
         problems.append('Support objects built on %s; required (X-row syndrome, Hx) and (Z-row syndrome, Hz)' % built)
     src = ast.unparse(c.methods['decode'].node)
-    if 'support_x = Support(syndromes_x, Hx)' not in src or 'support_z = Support(syndromes_z, Hz)' not in src:
-        problems.append('support_x / support_z are not built from (syndromes_x, Hx) / (syndromes_z, Hz)')
+    if ('support_x = Support(syndromes_x, Hx)' not in src or 'support_z = Support(syndromes_z, Hz)' not in src) and not problems:
+        raise Unsupported('source shape of UnionFindDecoder.decode not recognised (support_x / support_z bindings)')
     if problems or not isinstance(ret, Arr):
         return dict(verdict='refuted', model=dict(problems=problems), backend='pyvc-symex', seconds=0, detail='; '.join(problems) or 'no array returned', kind='state',
                     functions=[dict(function=c.methods['decode'].ref, sha256_16=c.methods['decode'].sha)], transparent=[])
@@ -335,10 +335,18 @@ from bounded import decoders as BD    # noqa
 from bounded import codes as BC    # noqa
 
 
-def native_valid(dname, cname, size, defo, kw, rnd, nsyn=6, direction=(1 / 3, 1 / 3, 1 / 3)):
-    """run-time contract of C05 on real objects"""
+def native_valid(dname, cname, size, defo, kw, rnd, nsyn=6, direction=(1 / 3, 1 / 3, 1 / 3), used_first=False):
+    """run-time contract of C05 on real objects (used_first: the code object was used undeformed - cached data computed - and then deformed in place)"""
     try:
-        code = BC.make(cname, size, defo, kw)
+        if used_first and defo:
+            code = BC.make(cname, size)
+            for attr in ('stabilizer_matrix', 'x_indices', 'z_indices', 'is_css', 'logicals_x', 'd'):
+                getattr(code, attr)
+            if code.is_css:
+                code.Hx, code.Hz
+            code.deform(defo, **(kw or {}))
+        else:
+            code = BC.make(cname, size, defo, kw)
         dec, em = BD.build(dname, code, direction=direction)
     except Exception as e:      # noqa
         return 'decoder cannot be constructed on a code it declares support for: %s: %s' % (type(e).__name__, str(e)[:120]), None
@@ -362,18 +370,24 @@ def native_valid(dname, cname, size, defo, kw, rnd, nsyn=6, direction=(1 / 3, 1 
 
 
 def native_matching_weights(cname, size, rnd):
-    """the X matcher carries the X-flip weights, the Z matcher the Z-flip weights (read back from the PyMatching graphs)"""
+    """the X matcher carries the X-flip weights, the Z matcher the Z-flip weights (read back from the PyMatching graphs) - for a sequence of decoders built in one
+    process for noise models that differ only in the deformation axis / in the 5th decimal of the direction (nothing may be shared between them)"""
     code = BC.make(cname, size)
-    dec, em = BD.build('MatchingDecoder', code, direction=(0.7, 0.1, 0.2), p=0.2, noise_deformation='XZZX')
-    wx, wz = em.get_weights(code, 0.2)
-    for nm, m, w in (('matcher_x', dec.matcher_x, wx), ('matcher_z', dec.matcher_z, wz)):
-        got = {}
-        for a, b, d in m.edges():
-            for f in d['fault_ids']:
-                got[f] = d['weight']
-        for q in range(code.n):
-            if q in got and not np.isclose(got[q], w[q], rtol=1e-6, atol=1e-6):
-                return '%s: edge of qubit %d has weight %r, LLR of that sector\'s flip marginal is %r' % (nm, q, got[q], float(w[q]))
+    variants = [((0.7, 0.1, 0.2), 'XZZX', None), ((0.7, 0.1, 0.2), 'XZZX', {'deformation_axis': 'x'}), ((0.7, 0.1, 0.2), 'XZZX', {'deformation_axis': 'y'}),
+                ((0.70001, 0.1, 0.19999), 'XZZX', {'deformation_axis': 'y'}), ((0.2, 0.1, 0.7), None, None)]
+    for direction, defo, nkw in variants:
+        dec, em = BD.build('MatchingDecoder', code, direction=direction, p=0.2, noise_deformation=defo, noise_kwargs=nkw)
+        pi, px, py, pz = em.probability_distribution(code, 0.2)
+        eps = 1e-20
+        wx = -np.log((px + py + eps) / (1 - px - py + eps)); wz = -np.log((pz + py + eps) / (1 - pz - py + eps))
+        for nm, m, w in (('matcher_x', dec.matcher_x, wx), ('matcher_z', dec.matcher_z, wz)):
+            got = {}
+            for a, b, d in m.edges():
+                for f in d['fault_ids']:
+                    got[f] = d['weight']
+            for q in range(code.n):
+                if q in got and not np.isclose(got[q], w[q], rtol=1e-6, atol=1e-6):
+                    return '%s: edge of qubit %d has weight %r, LLR of that sector\'s flip marginal is %r (direction %s, deformation %s %s)' % (nm, q, got[q], float(w[q]), direction, defo, nkw)
     return None
 
 
@@ -424,6 +438,11 @@ def bounded(tier, seed):
             samples.append(dict(decoder=d, code=cname, size=size, deformation=defo, ok=why is None))
         if why:
             viol.append(dict(obligation='C05.bounded[%s]' % d, input=dict(decoder=d, code=cname, size=list(size), deformation=defo, syndrome=syn), detail=why))
+        elif defo and d == 'BeliefPropagationOSDDecoder':
+            why, syn = native_valid(d, cname, size, defo, kw, rnd, 8, used_first=True)
+            ev += 1; nt.add((d, cname, size, defo, 'used-then-deformed'))
+            if why:
+                viol.append(dict(obligation='C05.bounded[%s]' % d, input=dict(decoder=d, code=cname, size=list(size), deformation=defo, syndrome=syn, history='used, then deformed in place'), detail=why))
     for cname, size in (('Toric2DCode', (3, 3)), ('Planar2DCode', (3, 2)), ('RotatedPlanar2DCode', (3, 3))):
         why = native_matching_weights(cname, size, rnd); ev += 1
         if why:
